@@ -1,5 +1,6 @@
 import EinxModel.Proofs.NotationSpace
 import EinxModel.Proofs.NotationPrintFinal
+import EinxModel.Proofs.NotationNFFinal
 /-!
 # C12 — the expression parser is total and stable under re-printing and extra spacing
 
@@ -318,6 +319,9 @@ theorem non_redundant_slots_change_result :
 
 /-! ## (d) Re-printing -/
 
+/-- The result is a tree. -/
+def isOkRes (r : Res Expr) : Bool := match r with | .ok _ => true | .error _ => false
+
 /-- Parse `s`, print the tree, parse the printed text: does the structure (positions, fresh names, ellipsis ids erased) survive? -/
 def roundTrips (s : String) : Bool :=
   match parseOp s.toList with
@@ -411,6 +415,133 @@ theorem printable_restrictions :
 theorem print_parse_samples :
     (["a b c", "a (b c) -> (a b) c", "a [b c] 1, d -> a d", "(a + b) c", "(a -> b) c, d", "(a , b) (c -> d)", "[[a] b] c",
       "a ->", ", a", "", "a... b", "[a...]", "(a b)...", "... a", "b ......"].all roundTrips) = true := by decide +kernel
+
+/-! ### `parse_print_parse`: the normal form of `parse_op`'s output, and the round trip for ALL strings
+
+`print_parse_partial` is about trees; the statements below are about every string `s`.
+
+**Normal form** (`parse_normal_form`).  Every tree that `parseOp` returns satisfies the decidable predicate `NRoot`
+(Proofs/NotationNFDefs.lean): `Op` of one or two non-empty `Args`; below them (grammar `N inBr al`) named axes with a valid
+axis name, numeric axes named `unnamed.<begin_pos>`, `FlattenedAxis` never directly over a `FlattenedAxis`, `Brackets` never
+inside `Brackets`, never directly over `Brackets`, never empty (`ndim ≠ 0`), `Ellipsis` over the anonymous axis or over a tree with
+`ndim ≠ 0`, `ConcatenatedAxis` of at least two axes / flattened axes, `List`s of 0 or ≥ 2 children none of which is a `List`, no
+`Op`/`Args` below the two top levels; and no axis name occurs both inside and outside brackets.  Proved layer by layer:
+`normal_form_parse` (the result of `parse`, with `Op`/`Args` nodes wherever a `List` may stand), `normal_form_move_up` (each of
+the two `move_up` passes returns at least one alternative, every alternative is in the grammar without the lifted node kind),
+`normal_form_brackets` (the redundant-bracket pass removes nested brackets and keeps `ndim`).
+
+**Excluded** (`Excluded t`, decidable).  The normal form contains exactly three kinds of node whose printed form is not
+(faithfully) in the notation — they are created by the passes AFTER `parse`, which is why the parser accepts the source text
+but not the printed text: `Ellipsis` over a `List` (bracket pass: `[[a b]...]`, printed with braces), `Ellipsis` over an
+`Ellipsis` (bracket pass: `[[a...]...]`, printed `a......`), `FlattenedAxis` over a `ConcatenatedAxis` (first `move_up` pass:
+`((a + b) -> c)`; bracket pass: `[([(a + b)])]`; printed `((a + b))`).  Each comes with a `decide`d witness that it is necessary
+(`excluded_patterns_necessary`).  `Excluded` additionally contains the restrictions of `print_parse_partial` that are still open;
+for these the round trip does hold on the witnesses (`excluded_open_restrictions`), they are restrictions of the proof.
+
+**Round trip** (`parse_print_parse`).  For every string `s`: if `parseOp s = .ok t` and `Excluded t = false`, then `parseOp t.print`
+succeeds with a tree of the same `shape`. -/
+
+/-- Layer 0 of the normal form: every tree returned by `parse` (for any token tree, any positions, either value of
+    `is_parent_composition`) is in the grammar `G true true true`. -/
+theorem normal_form_parse (ts : List Tok) (b e : Nat) (ipc : Bool) (x : Expr) (h : parse ts b e ipc = .ok x) :
+    G true true true x = true :=
+  ((NF.parse_G ts b e ipc).of_eq h).1
+
+/-- Layers 1 and 2: a successful `move_up` pass (`k = .op`: first pass, `k = .args`: second pass) on a tree of the grammar
+    `G ao aa` returns `Op(alts)` / `Args(alts)` with at least one alternative, every alternative in the grammar without the
+    lifted node kind. -/
+theorem normal_form_move_up (k : Lift) (arrows : List Int) (ao aa : Bool) (x y : Expr) (h : G ao aa true x = true)
+    (hm : moveUp k arrows x = .ok y) :
+    ∃ alts b e, y = k.wrap alts b e ∧ alts ≠ [] ∧ ∀ a ∈ alts, G (NF.Lift.ao k ao) (NF.Lift.aa k aa) true a = true := by
+  obtain ⟨alts, b, e, rfl, hne, ha⟩ := (NF.moveUp_G k arrows ao aa x h).of_eq hm
+  exact ⟨alts, b, e, rfl, hne, fun a haa => (ha a haa).1⟩
+
+/-- Layer 3: the redundant-bracket pass maps a tree without `Op`/`Args` nodes into the grammar `N inBr` (no brackets inside
+    brackets) and keeps `ndim`. -/
+theorem normal_form_brackets (x : Expr) (inBr : Bool) (h : G false false true x = true) :
+    N inBr true (traverse inBr x) = true ∧ (traverse inBr x).ndim = x.ndim :=
+  ⟨(NF.traverse_N x inBr h).1, (NF.traverse_N x inBr h).2.1⟩
+
+/-- `parse_normal_form`: **the normal form of `parse_op`'s output**, for every string. -/
+theorem parse_normal_form (s : Str) (t : Expr) (h : parseOp s = .ok t) :
+    NRoot t = true ∧ (conflictNames (occs [] false t)).isEmpty = true := by
+  obtain ⟨h1, h2⟩ := NF.parseOp_NRoot s t h
+  exact ⟨h1, by rw [h2]; rfl⟩
+
+/-- Every result of `parse_op` that is not `Excluded` is `Printable`. -/
+theorem parse_printable (s : Str) (t : Expr) (h : parseOp s = .ok t) (hx : Excluded t = false) : Printable t = true :=
+  printable_of_parseOp s t h hx
+
+/-- `parse_print_parse`: for EVERY string `s` that `parse_op` accepts with a tree `t` that is not `Excluded`, the printed text
+    `str(t)` is accepted by `parse_op` and yields the same tree up to positions, fresh names and ellipsis ids. -/
+theorem parse_print_parse (s : Str) (t : Expr) (h : parseOp s = .ok t) (hx : Excluded t = false) :
+    ∃ y, parseOp t.print = .ok y ∧ y.shape = t.shape :=
+  print_parse_partial t (parse_printable s t h hx)
+
+/-- The same with the Boolean `roundTrips` of section (d). -/
+theorem parse_print_parse_roundTrips (s : String) (t : Expr) (h : parseOp s.toList = .ok t) (hx : Excluded t = false) :
+    roundTrips s = true := by
+  obtain ⟨y, hy, hs⟩ := parse_print_parse s.toList t h hx
+  simp only [roundTrips, h, hy]
+  rw [← hs]
+  exact Expr.beq_refl _
+
+/-- `Excluded` of the tree of a text (`true` for texts that do not parse). -/
+def excludedOf (s : String) : Bool :=
+  match parseOp s.toList with
+  | .ok t => Excluded t
+  | .error _ => true
+
+/-- Which of the components of `Excluded` hold for the tree of a text:
+    (ellipsis over list, ellipsis over ellipsis, flattened axis over concatenation, numeric axis in brackets, adjacent spaces). -/
+def excludedWhy (s : String) : Option (Bool × Bool × Bool × Bool × Bool) :=
+  match parseOp s.toList with
+  | .ok t => some (anyNode patEllList t, anyNode patEllEll t, anyNode patFlatConcat t, numInBr false t, hasAdjSpaces (textsL t.ptree))
+  | .error _ => none
+
+/-- Each of the three excluded patterns is necessary: a text whose tree is excluded by that pattern ALONE and whose printed
+    form does not parse back to the same tree.  (The first is relative to the extracted brace constant.) -/
+theorem excluded_ell_list_necessary :
+    excludedWhy "[[a b]...]" = some (true, false, false, false, false) ∧
+      (Einx.Extracted.ellipsisOpen = "{" → roundTrips "[[a b]...]" = false) := by
+  decide +kernel
+
+theorem excluded_ell_ell_necessary :
+    excludedWhy "[[a...]...]" = some (false, true, false, false, false) ∧ roundTrips "[[a...]...]" = false := by
+  decide +kernel
+
+/-- `FlattenedAxis` over `ConcatenatedAxis` arises in the first `move_up` pass and in the bracket pass. -/
+theorem excluded_flat_concat_necessary :
+    (excludedWhy "((a + b) -> c)" = some (false, false, true, false, false) ∧ roundTrips "((a + b) -> c)" = false) ∧
+    (excludedWhy "[([(a + b)])]" = some (false, false, true, false, false) ∧ roundTrips "[([(a + b)])]" = false) := by
+  decide +kernel
+
+/-- The two open restrictions inside `Excluded` are restrictions of the proof, not of the truth: the witnesses are excluded
+    by that restriction ALONE and do round-trip. -/
+theorem excluded_open_restrictions :
+    (excludedWhy "a [1]" = some (false, false, false, true, false) ∧ roundTrips "a [1]" = true) ∧
+    (excludedWhy "a, -> b" = some (false, false, false, false, true) ∧ roundTrips "a, -> b" = true) := by
+  decide +kernel
+
+/-- Non-vacuity of `parse_print_parse`: texts covering every node kind, both `move_up` passes and the bracket pass are not
+    excluded. -/
+theorem not_excluded_samples :
+    (["a b c", "a (b c) -> (a b) c", "a [b c] 1, d -> a d", "(a + b) c", "(a -> b) c, d", "(a , b) (c -> d)", "[[a] b] c",
+      "a ->", ", a", "", "a... b", "[a...]", "(a b)...", "... a", "(a + 1)... [b]... 2", "a (b (c d)) -> , ()",
+      "[a [b]] c", "([a]) [[b]...]"].all (fun s => !excludedOf s)) = true := by
+  decide +kernel
+
+example : ∃ y, parseOp "a [b c]... (d + 1) -> a, (d e)".toList = .ok y ∧
+    ∃ z, parseOp y.print = .ok z ∧ z.shape = y.shape :=
+  match h : parseOp "a [b c]... (d + 1) -> a, (d e)".toList with
+  | .ok y => ⟨y, rfl, parse_print_parse _ y h (by
+      have : excludedOf "a [b c]... (d + 1) -> a, (d e)" = false := by decide +kernel
+      simpa only [excludedOf, h] using this)⟩
+  | .error _ => by
+    exfalso
+    have : isOkRes (parseOp "a [b c]... (d + 1) -> a, (d e)".toList) = true := by decide +kernel
+    rw [h] at this
+    cases this
 
 /-! ## Non-vacuity -/
 
